@@ -4,6 +4,7 @@ package main
 
 import (
 	"fmt"
+	"sort"
 	"go/token"
 	"go/types"
 	"regexp"
@@ -34,7 +35,7 @@ func runC03(c *Ctx) {
 	c.Rule("C03.R5", "WIRE", "(?i) iff not match-case", 1)
 	c.Rule("C03.R6", "WIRE", "compiled text derives from the rule's pattern field", 1)
 	c.Rule("C03.R7", "PANIC", "pattern compiler: every index/slice proved in range", 1)
-	c.Rule("C03.R8", "LIN", "trailing '/*' rewrite removes exactly that suffix", 1)
+	c.Rule("C03.R8", "LIN", "trailing '/*' rewrite removes exactly that suffix; no other rewrite", 2)
 
 	a := &anchors{c: c, rule: "C03.R1"}
 	pp := a.method("rules", "NetworkRule", "preparePattern")
@@ -282,6 +283,96 @@ func runC03(c *Ctx) {
 				c.Check(badp == "", "C03.R3", key, ptr.Pos(), "regex[:P] + ReplaceAll(regex[P:len-1], \"|\", \"\\|\") + regex[len-1:]", badp)
 			}
 		}
+		// R3 (coverage): the escaping may be skipped only where the inner region regex[P:len-1] cannot hold a pipe
+		if rep != nil && len(stars) == 1 && len(seps) == 1 {
+			in := func(outer, inner *E) bool { return u.Mentions(outer, func(x *E) bool { return x == inner }) }
+			esc := stars[0].Args[0]
+			if in(esc, seps[0]) {
+				esc = seps[0].Args[0]
+			}
+			badc := ""
+			nb := 0
+			pipeS := K["MaskPipe"]
+			for leaf, cond := range u.Leaves(esc) {
+				hasEsc := false
+				for _, p := range pipes {
+					if in(leaf, p) {
+						hasEsc = true
+					}
+				}
+				if hasEsc || cond == False {
+					continue
+				}
+				if leaf != rep {
+					if badc == "" {
+						badc = "UNDECIDED: on some path the text handed to the expansion is neither the escaped text nor its pipe-escaped form: " + clip(u.Show(leaf), 80)
+					}
+					continue
+				}
+				u.bdd.Cubes(cond, func(cube map[int]bool) {
+					nb++
+					if badc != "" {
+						return
+					}
+					L := NewLin(u)
+					P := int64(len(K["MaskPipe"]))
+					noPipe := false
+					for v, pos := range cube {
+						at := u.atoms[v]
+						L.assumeLiteral(at, pos)
+						if at.Op == "call" && at.Aux == "strings.HasPrefix" && at.Args[0] == rep && isStr(at.Args[1], K["MaskStartURL"]) && pos {
+							P = int64(len(K["MaskStartURL"]))
+						}
+						if at.Op == "call" && (at.Aux == "strings.Contains" || at.Aux == "strings.ContainsRune" || at.Aux == "strings.ContainsAny") && at.Args[0] == rep && !pos {
+							if sv, ok := at.Args[1].StrVal(); ok && sv == pipeS {
+								noPipe = true
+							}
+							if cv, ok := at.Args[1].IntVal(); ok && len(pipeS) == 1 && cv == int64(pipeS[0]) {
+								noPipe = true
+							}
+						}
+					}
+					if noPipe {
+						return
+					}
+					// suppose a pipe at position q of the inner region: P <= q <= len-2
+					q := u.mk("sym", "innerPipeAt", types.Typ[types.Int])
+					L.leE(u.Int(P), q, 0)
+					L.leE(q, u.Len(rep), -2)
+					var idxTerms []*E
+					for _, at := range u.AtomsOf(cond) {
+						idxTerms = append(idxTerms, u.Collect(at, func(x *E) bool {
+							return x.Op == "call" && (x.Aux == "strings.Index" || x.Aux == "strings.LastIndex" || x.Aux == "strings.Count") && len(x.Args) >= 2 && x.Args[0] == rep && isStr(x.Args[1], pipeS)
+						})...)
+					}
+					for _, t := range idxTerms {
+						switch t.Aux {
+						case "strings.Index":
+							L.leE(u.Int(0), t, 0)
+							L.leE(t, q, 0)
+						case "strings.LastIndex":
+							L.leE(q, t, 0)
+						case "strings.Count":
+							L.leE(u.Int(1), t, 0)
+						}
+					}
+					L.resolveNeqs()
+					if !L.entails(newLin(), newLin(), -1) {
+						lits := []string{}
+						for v, pos := range cube {
+							t := u.Show(u.atoms[v])
+							if !pos {
+								t = "!" + t
+							}
+							lits = append(lits, t)
+						}
+						sort.Strings(lits)
+						badc = fmt.Sprintf("inner pipes are left unescaped when %s: a pattern with a '|' between position %d and the last character then compiles to an alternation", clip(strings.Join(lits, " & "), 200), P)
+					}
+				})
+			}
+			c.Check(badc == "", "C03.R3", shortFn(ptr)+": the escaping is skipped only where no inner pipe can exist", ptr.Pos(), fmt.Sprintf("%d bypass case(s): each refuted against 'a pipe at P <= q <= len-2' by linear arithmetic over len/Index/LastIndex, or guarded by !Contains", nb), badc)
+		}
 		// the || branch must use P=2, the other P=1: check via the guarding HasPrefix
 		// anchors (R4)
 		okStartURL, okStart, okEnd := false, false, false
@@ -374,6 +465,7 @@ func runC03(c *Ctx) {
 		s := g.Eval(nnr)
 		u := g.U
 		bad := ""
+		bad2 := ""
 		n := 0
 		var obj *E
 		for _, ef := range s.Effects {
@@ -383,7 +475,19 @@ func runC03(c *Ctx) {
 			obj = ef.Addr.Args[0]
 			v := ef.Val
 			if v.Op != "bin" || v.Aux != "+" {
-				continue // the initial store of the parsed pattern
+				// the initial store of the parsed pattern: any other transformation of the text
+				// (library call, slicing, concatenation) changes the language the rule accepts
+				for leaf, lc := range u.Leaves(v) {
+					if u.bdd.And(lc, ef.Cond) == False {
+						continue
+					}
+					tr := leaf.Op == "slice" || leaf.Op == "bin" || leaf.Op == "index" || leaf.Op == "conv" ||
+						(leaf.Op == "call" && !strings.HasPrefix(leaf.Aux, "rules.") && !strings.HasPrefix(leaf.Aux, "(*rules.") && !strings.HasPrefix(leaf.Aux, "(rules."))
+					if tr && bad2 == "" {
+						bad2 = c.P.Pos(ef.Pos) + ": besides the documented '/*' rewrite the constructor changes the pattern: it stores " + clip(u.Show(leaf), 100) + ", so the rule is not compiled from the pattern of the rule text"
+					}
+				}
+				continue
 			}
 			n++
 			sep, _ := v.Args[1].StrVal()
@@ -419,6 +523,7 @@ func runC03(c *Ctx) {
 			bad = fmt.Sprintf("expected one rewrite of the pattern, found %d", n)
 		}
 		c.Check(bad == "", "C03.R8", "NewNetworkRule: trailing '/*' becomes '^' with exactly that suffix removed", nnr.Pos(), "pattern[:len-len(suffix)] + MaskSeparator under HasSuffix(pattern, suffix)", bad)
+		c.Check(bad2 == "", "C03.R8", "NewNetworkRule: no other rewrite of the pattern", nnr.Pos(), "every other store to the pattern field stores the parsed text untransformed", bad2)
 	}
 
 	// ---------- R9: the expansion constants mean what the syntax documents ----------
